@@ -157,7 +157,16 @@ def run(tier, seed):
     n = 1500 if tier == "quick" else 40000
     s3, f3 = core.hyp_search(lambda: _dec.case_strategy(len(files)), make_hyp_eval(exe, files), n, seed)
     stats.merge(s3)
-    oc = core.conclude(PID, fails + f2 + f3, replay_case)
+    # generator route: every entry of the bzgen defect catalogue (incl. defects in later streams whose level differs
+    # from the first stream's), with and without a FILE operand
+    from props import _gen
+
+    def gen_eval(ex, data, c, st_, tags, origin):
+        return eval_bytes(ex, data, b"", c, st_, origin + ":" + ",".join(tags)[:40],
+                          file_operand=(len(data) % 5 == 0), tags=tags)
+    s4, f4 = _gen.run_c05(exe, tier, seed + 11, gen_eval)
+    stats.merge(s4)
+    oc = core.conclude(PID, fails + f2 + f3 + f4, replay_case)
     core.write_evidence(PID, tier, seed, "fault_enumeration", stats, RULE, time.time() - t0,
                         violations=len(oc.violations),
                         extra={"tiny_files": [f["desc"] for f in tiny], "truncations_exhaustive": True},
